@@ -34,7 +34,10 @@ def gen_rate(rng, states, params, kinds, derived_ok=True):
     if k == "periodic":
         # time may only enter through a derived parameter
         name = "f%s" % p
-        return "%s*%s" % (name, X), k, (name, "%s*(1+cos(t)/3)" % p)
+        # the same derived-parameter NAME gets different definitions in different models of one run
+        # (a parse cache keyed on names only would hand one model another model's forcing)
+        forms = ["%s*(1+cos(t)/3)", "%s*(1+sin(t)/3)", "%s*(1+cos(t)/2)", "%s*(2+sin(t))/3", "%s*(3+cos(2*t))/4"]
+        return "%s*%s" % (name, X), k, (name, forms[int(rng.integers(0, len(forms)))] % p)
     raise ValueError(k)
 
 
